@@ -204,6 +204,8 @@ package aa
 //@   ensures as(result, "*PivotRoot").OldRoot == log["srcname"]
 //@   ensures as(result, "*PivotRoot").NewRoot == log["name"]
 
+// newMqueueFromLog: the queue type follows the record's class (the kernel writes
+// posix_mqueue or sysv_mqueue): a class naming sysv and not posix gives type=sysv.
 //@ func newMqueueFromLog
 //@   opt prop=C16
 //@   assigns nothing
@@ -215,6 +217,8 @@ package aa
 //@   ensures as(result, "*Mqueue").Label == log["label"]
 //@   ensures as(result, "*Mqueue").Name == log["name"]
 //@   ensures as(result, "*Mqueue").Type == "posix" || as(result, "*Mqueue").Type == "sysv"
+//@   ensures imp(ext("strings.Contains", log["class"], "posix"), as(result, "*Mqueue").Type == "posix")
+//@   ensures imp(!ext("strings.Contains", log["class"], "posix") && ext("strings.Contains", log["class"], "sysv"), as(result, "*Mqueue").Type == "sysv")
 
 //@ func newIOUringFromLog
 //@   opt prop=C16
